@@ -288,6 +288,10 @@ def rule_order_sources(ck):
     from . import c13
     ck.clause('D1 (shared C13-D7: catalogs gridded on the forecast region)')
     c13.rule_getters(ck)
+    # an index remembered on the catalog pairs the cells of the old event order with the magnitudes of the new one
+    from . import c03
+    ck.clause('D1 (shared C03-D6: event indices are recomputed from the events as they are stored now)')
+    c03.rule_pure_gridding(ck)
 
 
 RULES = [rule_updates, rule_equivariance, rule_cells, rule_observation, rule_order_sources]
